@@ -46,6 +46,7 @@ type lsEnv struct {
 	// world bookkeeping: canonical source -> repo
 	repos map[string]*lsRepo
 	forceAdd bool
+	wantBoth bool // a repository just moved between roots: prefer syncing both roots
 }
 
 type lsRepo struct {
@@ -1022,7 +1023,7 @@ func (e *lsEnv) mutate(history *[]string) {
 	note := func(f string, a ...any) { *history = append(*history, fmt.Sprintf(f, a...)) }
 	ex := e.existing()
 	switch k := e.r.Intn(100); {
-	case k < 30 || len(ex) == 0 || e.forceAdd: // add
+	case k < 25 || len(ex) == 0 || e.forceAdd: // add
 		c := e.randomRepoPath()
 		kind := "work"
 		if strings.HasSuffix(c, ".git") {
@@ -1040,7 +1041,7 @@ func (e *lsEnv) mutate(history *[]string) {
 		ver := e.r.Intn(3)
 		e.addRepo(c, kind, ver)
 		note("add %s kind=%s ver=%d", c, kind, ver)
-	case k < 45: // move to the other root, same relative path (same name)
+	case k < 50: // move to the other root, same relative path (same name)
 		c := ex[e.r.Intn(len(ex))]
 		segs := lsSegs(c)
 		if len(segs) < 2 {
@@ -1062,7 +1063,8 @@ func (e *lsEnv) mutate(history *[]string) {
 			}
 		}
 		note("move %s -> %s", c, d)
-	case k < 55: // rename within the root
+		e.wantBoth = true
+	case k < 58: // rename within the root
 		c := ex[e.r.Intn(len(ex))]
 		segs := lsSegs(c)
 		if len(segs) < 2 {
@@ -1145,6 +1147,12 @@ func (e *lsEnv) mutate(history *[]string) {
 
 func (e *lsEnv) pickRoots() []string {
 	var roots []string
+	if e.wantBoth {
+		e.wantBoth = false
+		if e.r.Chance(80) {
+			return []string{"/r1", "/r2"}
+		}
+	}
 	switch k := e.r.Intn(100); {
 	case k < 45:
 		roots = []string{"/r1", "/r2"}
